@@ -197,7 +197,10 @@ func TO2(ctx context.Context, transport Transport, to1d *cose.Sign1[protocol.To1
 	defer func() { _ = serviceInfoWriter.Close() }()
 
 	// Send devmod KVs in initial ServiceInfo
-	go c.Devmod.Write(ctx, c.DeviceModules, sendMTU, serviceInfoWriter)
+	//
+	// The size available to service info KVs is 5 bytes less than the MTU (see
+	// exchangeServiceInfo); a devmod:modules chunk must fit it in one piece
+	go c.Devmod.Write(ctx, c.DeviceModules, sendMTU-5, serviceInfoWriter)
 
 	// Loop, sending and receiving service info until done
 	if err := exchangeServiceInfo(ctx, transport, proveDeviceNonce, setupDeviceNonce, sendMTU, serviceInfoReader, sess, &c); err != nil {
